@@ -903,7 +903,7 @@ class Project:
                     raise JobsCorruptedError([job_id])
 
                 return statepoint
-        except (OSError, ValueError) as error:
+        except (OSError, ValueError, RecursionError) as error:
             if os.path.isdir(os.sep.join((self.workspace, job_id))):
                 logger.error(
                     "Error while trying to access state point file of job '{}': '{}'.".format(
